@@ -274,6 +274,70 @@ func (ch c11) Run(c *core.Ctx) {
 		envHookTLS.Stop()
 		envHookPlain.Stop()
 	}
+	// the hooks an embedding program registers for the end of a connection (TerminateConn, CloseConn): which of
+	// them run, and in which order, after a Terminate is the same over TLS as in plaintext - also for a client
+	// that is gone by then (every write after its Terminate fails: in plaintext nobody notices, an upgraded
+	// connection fails to send its closure alert)
+	if c.Begin(931000) {
+		rec := func(name string) func(ctx context.Context) error {
+			return func(ctx context.Context) error {
+				if cn := hs.ConnOf(ctx); cn != nil {
+					cn.CB("end-hook", name)
+				}
+				return nil
+			}
+		}
+		opts := []wire.OptionFn{wire.TerminateConn(rec("TerminateConn")), wire.CloseConn(rec("CloseConn"))}
+		envT := hs.Start(hs.Parse, append([]wire.OptionFn{wire.TLSConfig(hs.ServerTLS())}, opts...)...)
+		envP := hs.Start(hs.Parse, opts...)
+		prog := &hs.Prog{Stmts: []*hs.Stmt{{ID: "t", Cols: textCols(1), Ops: []hs.Op{{K: "row", Vals: []any{"v"}}, {K: "complete", Tag: "SELECT 1"}}}}}
+		in := append(pg.Startup([][2]string{{"user", "u"}}), pg.Query("t")...)
+		for _, gone := range []bool{false, true} {
+			var ref string
+			for _, ver := range []uint16{0, tls.VersionTLS12, tls.VersionTLS13} {
+				sess := &hs.Sess{Default: func(string) *hs.Prog { return prog }}
+				var conn *tr.Conn
+				send := func(b []byte) {}
+				if ver == 0 {
+					conn = envP.Dial(sess)
+					conn.Send(in)
+					conn.Quiesce()
+					send = conn.Send
+				} else {
+					t, reply, err := c11upgrade(envT, sess, nil, false, ver)
+					if err != nil {
+						c.Violate("upgrade", "TLS upgrade failed", fmt.Sprintf("reply %q: %v", reply, err), nil)
+						continue
+					}
+					conn = t.conn
+					t.step(in)
+					defer t.tc.Close()
+					send = func(b []byte) { t.tc.Write(b) }
+				}
+				if gone {
+					conn.FailWritesFromNow()
+				}
+				send(pg.Terminate())
+				conn.WaitClosed()
+				var hooks []string
+				for _, e := range conn.Events() {
+					if e.Kind == "cb" && e.Name == "end-hook" {
+						hooks = append(hooks, e.Data.(string))
+					}
+				}
+				got := strings.Join(hooks, " ")
+				c.Count("end_of_connection_hook_traces_compared", 1)
+				c.Eval(fmt.Sprintf("end hooks ver=%x gone=%v", ver, gone), true)
+				if ver == 0 {
+					ref = got
+				} else if got != ref {
+					c.Violate("tls-differs", "after a Terminate the hooks registered for the end of a connection run differently over TLS than in plaintext", fmt.Sprintf("TLS %x, client gone (writes fail) = %v: hooks [%s], plaintext: [%s]", ver, gone, got, ref), nil)
+				}
+			}
+		}
+		envT.Stop()
+		envP.Stop()
+	}
 	// an SSLRequest whose length field announces more than the request code: the bytes behind the code
 	// belong to that packet. They are no start-up packet (nothing is authenticated on their account) and
 	// no part of the TLS handshake that follows the 'S'
